@@ -261,7 +261,7 @@ def no_swallow(ctx):
 # ---------------------------------------------------------------------------------------------
 # C12: a rejected / deferred commit has no effect
 
-def commit_check_first(ctx):
+def commit_check_first(ctx, only=None):
     """In every commit entry point the previous-root comparison dominates every effect (rollback log
     append, overlay marking, root store, Store::commit); on the deferred path (lock not acquired)
     nothing happens."""
@@ -274,6 +274,8 @@ def commit_check_first(ctx):
     ]
     qs, enc = [], set()
     for rx, fh, a0, nm, scen in entry:
+        if only and nm != only:
+            continue
         f = _fn(prog, rx, fh, a0)
         cfg = pathsmt.Cfg(f)
         table = [
@@ -515,3 +517,19 @@ def rollback_sync(ctx):
                      key="writeout_end:swallowed result"))
     enc.add("rollback::Rollback::writeout_end @ nomt/src/rollback/mod.rs")
     return qs, enc
+
+
+def commit_check_session_commit(ctx):
+    return commit_check_first(ctx, "FinishedSession::commit")
+
+
+def commit_check_session_try(ctx):
+    return commit_check_first(ctx, "FinishedSession::try_commit_nonblocking")
+
+
+def commit_check_overlay_commit(ctx):
+    return commit_check_first(ctx, "Overlay::commit")
+
+
+def commit_check_overlay_try(ctx):
+    return commit_check_first(ctx, "Overlay::try_commit_nonblocking")
